@@ -24,6 +24,15 @@ TIMES = 'history/times.py'; HFILES = 'history/files.py'; TNETS = 'server/tnetstr
 POLL = 'server/enip/poll.py'; DEFAULTS = 'server/enip/defaults.py'; NETWORK = 'server/network.py'
 
 VARIANTS = [
+    V( 'assert-parenthesised-with-message', LOGIX, "assert offremains == 0 or (\n attribute.parser.tag_type < STRING.tag_type\n and offremains % attribute.parser.struct_calcsize == 0 )", "assert ( offremains == 0 or (\n                        attribute.parser.tag_type < STRING.tag_type\n                        and offremains % attribute.parser.struct_calcsize == 0 ), 'sub-element offset' )", fires=[ 'W-ASSERT' ] ),
+    V( 'assert-parenthesised-condition-only', LOGIX, "assert offremains == 0 or (\n attribute.parser.tag_type < STRING.tag_type\n and offremains % attribute.parser.struct_calcsize == 0 )", "assert ( offremains == 0 or (\n                        attribute.parser.tag_type < STRING.tag_type\n                        and offremains % attribute.parser.struct_calcsize == 0 )), 'sub-element offset'", silent=[ 'W-ASSERT' ] ),
+    V( 'snapshot-set-attribute-per-element', DEVICE, "val = [ struct.unpack( fmt, buf[i:i+siz] )[0]\n for i in range( 0, len(buf), siz ) ]\n att[:] = val", "for i in range( len( att )):\n                        att[i]	= struct.unpack_from( fmt, buf, i * siz )[0]", fires=[ 'R-SNAPSHOT' ] ),
+    V( 'nosuch-object-taken-for-self', DEVICE, 'assert target is not None, "No such CIP Object: %r" % ( ids, )', "pass", fires=[ 'D-NOSUCH' ] ),
+    V( 'nosuch-object-refused-by-test', DEVICE, 'assert target is not None, "No such CIP Object: %r" % ( ids, )', "if target is None:\n                raise KeyError( ids )", silent=[ 'D-NOSUCH' ] ),
+    V( 'nulladdr-not-required', UCMM, "assert data.enip.CIP.send_data.CPF.item[0].type_id == 0x0000, \\\n \"EtherNet/IP CIP CPF NULL Address item required, not type 0x%04x\" % (\n data.enip.CIP.send_data.CPF.item[0].type_id )", "pass", fires=[ 'U-NULLADDR' ] ),
+    V( 'peek-regardless-of-length', PARSER, "if 4 <= data[path+'..length'] <= 6:", "if data[path+'..length'] <= 6:", fires=[ 'G-PEEK' ] ),
+    V( 'peek-pushed-back-in-order-taken', PARSER, "source.push( ext_siz )\n source.push( sts )\n source.push( pad )\n source.push( svc )", "source.push( svc )\n                source.push( pad )\n                source.push( sts )\n                source.push( ext_siz )", fires=[ 'G-PEEK' ] ),
+    V( 'peek-guard-as-range', PARSER, "if 4 <= data[path+'..length'] <= 6:", "if data[path+'..length'] in ( 4, 5, 6 ):", silent=[ 'G-PEEK' ] ),
     V( 'each-member-reply-into-a-copy', DEVICE, "r.input = bytearray( Object.produce( r ))\n data.status = 0x00", "r	= dotdict( r, input=bytearray( Object.produce( r )))\n                data.status	= 0x00", fires=[ 'P-EACH' ] ),
     # ---- repairs BY BZ CA CB ( round 8 )
     V( 'once-rerun-not-barred', DEVICE, 'assert not entered, "request failed in its target Object"\n answerer.request( req, addr=addr )', "answerer.request( req, addr=addr )", fires=[ 'P-ONCE' ] ),
